@@ -780,12 +780,14 @@ def table_b(id_):
 
 def draw_numeric(rng, id_, width_delta=0):
     nbits, scale, refval = table_b(id_)
+    nbits0 = nbits
     nbits += width_delta
-    cls = rng.choice(['missing', 'zero', 'max', 'mid', 'mid', 'mid'])
+    cls = rng.choice(['missing', 'zero', 'max', 'mid', 'mid', 'mid'] + (['tableB-all-ones', 'tableB-all-ones'] if width_delta > 0 else []))
     if cls == 'missing':
         return None
     top = 2 ** nbits - 2 if nbits > 1 else 1
-    raw = {'zero': 0, 'max': top}.get(cls, rng.randrange(0, top + 1))
+    # in a WIDENED field the all-ones pattern of the Table B width is an ordinary value
+    raw = {'zero': 0, 'max': top, 'tableB-all-ones': 2 ** nbits0 - 1}.get(cls, rng.randrange(0, top + 1))
     v = raw + refval
     return v if scale == 0 else v / (10.0 ** scale)
 
